@@ -1106,6 +1106,44 @@ def statements_of_conditional_values(fnode):
     return changed
 
 
+def split_tuple_assignments(fnode):
+    """a, b = X, Y   ->   a = X ; b = Y     when every target is a plain name and no later value reads an earlier target (then binding a
+    before Y is evaluated changes nothing; X is evaluated before Y in both forms)"""
+    changed = False
+
+    def block(stmts):
+        nonlocal changed
+        out = []
+        for st in stmts:
+            for fld in ("body", "orelse", "finalbody"):
+                v = getattr(st, fld, None)
+                if isinstance(v, list) and v and isinstance(v[0], ast.stmt) and not isinstance(st, (ast.FunctionDef, ast.AsyncFunctionDef, ast.ClassDef)):
+                    setattr(st, fld, block(v))
+            if isinstance(st, ast.Try):
+                for h in st.handlers:
+                    h.body = block(h.body)
+            if isinstance(st, ast.Assign) and len(st.targets) == 1 and isinstance(st.targets[0], (ast.Tuple, ast.List)) and isinstance(st.value, (ast.Tuple, ast.List)) \
+                    and len(st.targets[0].elts) == len(st.value.elts) >= 2 and all(isinstance(t, ast.Name) for t in st.targets[0].elts) \
+                    and not any(isinstance(x, ast.Starred) for x in st.value.elts) and len({t.id for t in st.targets[0].elts}) == len(st.targets[0].elts):
+                names = [t.id for t in st.targets[0].elts]
+                ok = True
+                for j, v in enumerate(st.value.elts):
+                    read = {x.id for x in ast.walk(v) if isinstance(x, ast.Name)}
+                    if read & set(names[:j]) or any(isinstance(x, (ast.NamedExpr, ast.Lambda, ast.Yield, ast.YieldFrom, ast.Await)) for x in ast.walk(v)):
+                        ok = False
+                if ok:
+                    for t, v in zip(st.targets[0].elts, st.value.elts):
+                        out.append(ast.copy_location(ast.Assign(targets=[ast.Name(id=t.id, ctx=ast.Store())], value=v, lineno=st.lineno), st))
+                    changed = True
+                    continue
+            out.append(st)
+        return out
+    fnode.body = block(fnode.body)
+    if changed:
+        ast.fix_missing_locations(fnode)
+    return changed
+
+
 def tests_of_temporaries(fnode):
     """t = E; if t: ..   (or `if not t:`)   with t a plain local bound once and read once - in that test -   ->   if E: ..
     (the inverse of `give the condition a name`; same conditions as for arguments)"""
@@ -1391,11 +1429,12 @@ def apply_synonyms(repo):
     for f in repo.funcs.values():
         before = ast.dump(f.node)
         f.node = _MatchToIf().visit(f.node)          # first: the passes below walk if / else arms, not match cases
+        split_tuple_assignments(f.node)
         aliases_of_configuration(repo, f)
-        statements_of_conditional_values(f.node)
         tests_of_temporaries(f.node)
         arguments_of_temporaries(f.node)
         return_of_temporary(f.node)
+        statements_of_conditional_values(f.node)          # (after the temporaries are read in place: `x = A if c else B; return x` is `return A if c else B` first)
         comprehensions_of_collect_loops(f.node)
         unelse_after_exit(f.node)
         if f.name == "main":
